@@ -1209,6 +1209,139 @@ pub fn value_cases(tier: &str) -> Vec<Case> {
         }
     }
 
+    // ---- outstation configuration (hook H7: the conversion is a private function) -------------------------
+    {
+        #[derive(Clone, Copy)]
+        struct P {
+            oa: u16,
+            ma: u16,
+            sol: u16,
+            uns: u16,
+            rx: u16,
+            confirm: u64,
+            select: u64,
+            feat: usize,
+            retries: u32,
+            retry_delay: u64,
+            keep_alive: u64,
+            read_headers: u16,
+            controls: u16,
+            cz: usize,
+            ev: usize,
+        }
+        let base = P { oa: 1024, ma: 1, sol: 2048, uns: 2048, rx: 2048, confirm: 5000, select: 5000, feat: 0b0110, retries: 5, retry_delay: 5000, keep_alive: 60_000, read_headers: 64, controls: 8, cz: 0xFF, ev: 0 };
+        let mut ps: Vec<(String, P)> = vec![("base".into(), base)];
+        for x in [0u16, 1, 0xFFEF, 0xFFF0, 0xFFFF] {
+            ps.push((format!("outstation_address={x}"), P { oa: x, ..base }));
+            ps.push((format!("master_address={x}"), P { ma: x, ..base }));
+        }
+        for x in [248u16, 249, 250, 2047, 2048, 2049, 65535] {
+            ps.push((format!("solicited_buffer_size={x}"), P { sol: x, ..base }));
+            ps.push((format!("unsolicited_buffer_size={x}"), P { uns: x, ..base }));
+            ps.push((format!("rx_buffer_size={x}"), P { rx: x, ..base }));
+        }
+        for x in [0u64, 1, 999, 1000, 3_600_000, 3_600_001] {
+            ps.push((format!("confirm_timeout={x}ms"), P { confirm: x, ..base }));
+            ps.push((format!("select_timeout={x}ms"), P { select: x, ..base }));
+        }
+        for x in 0..16usize {
+            ps.push((format!("features={x:04b}"), P { feat: x, ..base }));
+        }
+        for x in [0u32, 1, 65535, u32::MAX] {
+            ps.push((format!("max_unsolicited_retries={x}"), P { retries: x, ..base }));
+        }
+        for x in [0u64, 1, 999, 1000, 1001, 1500, 60_000, u32::MAX as u64] {
+            ps.push((format!("unsolicited_retry_delay={x}ms"), P { retry_delay: x, ..base }));
+            ps.push((format!("keep_alive_timeout={x}ms"), P { keep_alive: x, ..base }));
+        }
+        for x in [0u16, 1, 64, 65, 65535] {
+            ps.push((format!("max_read_request_headers={x}"), P { read_headers: x, ..base }));
+            ps.push((format!("max_controls_per_request={x}"), P { controls: x, ..base }));
+        }
+        for k in 0..8usize {
+            ps.push((format!("class_zero without type {k}"), P { cz: 0xFF & !(1 << k), ..base }));
+            ps.push((format!("class_zero only type {k}"), P { cz: 1 << k, ..base }));
+            ps.push((format!("event buffer rotation {k}"), P { ev: k + 1, ..base }));
+        }
+        for (label, p) in ps {
+            v.push(Case {
+                clause: "C20.S3",
+                conv: "fn convert_outstation_config(ffi::OutstationConfig) (hook H7)".into(),
+                input: label,
+                run: Box::new(move || {
+                    let evs: [u16; 8] = std::array::from_fn(|i| if p.ev == 0 { 5 } else { [1u16, 2, 3, 4, 5, 6, 7, 8][(i + p.ev) % 8] });
+                    let f = ffi::OutstationConfig {
+                        outstation_address: p.oa,
+                        master_address: p.ma,
+                        event_buffer_config: ffi::EventBufferConfig {
+                            max_binary: evs[0],
+                            max_double_bit_binary: evs[1],
+                            max_binary_output_status: evs[2],
+                            max_counter: evs[3],
+                            max_frozen_counter: evs[4],
+                            max_analog: evs[5],
+                            max_analog_output_status: evs[6],
+                            max_octet_string: evs[7],
+                        },
+                        solicited_buffer_size: p.sol,
+                        unsolicited_buffer_size: p.uns,
+                        rx_buffer_size: p.rx,
+                        decode_level: ffi::DecodeLevel {
+                            application: ffi::AppDecodeLevel::ObjectValues.into(),
+                            transport: ffi::TransportDecodeLevel::Header.into(),
+                            link: ffi::LinkDecodeLevel::Payload.into(),
+                            physical: ffi::PhysDecodeLevel::Length.into(),
+                        },
+                        confirm_timeout: p.confirm,
+                        select_timeout: p.select,
+                        features: ffi::OutstationFeatures { self_address: bits(p.feat, 0), broadcast: bits(p.feat, 1), unsolicited: bits(p.feat, 2), respond_to_any_master: bits(p.feat, 3) },
+                        max_unsolicited_retries: p.retries,
+                        unsolicited_retry_delay: p.retry_delay,
+                        keep_alive_timeout: p.keep_alive,
+                        max_read_request_headers: p.read_headers,
+                        max_controls_per_request: p.controls,
+                        class_zero: ffi::ClassZeroConfig {
+                            binary: bits(p.cz, 0),
+                            double_bit_binary: bits(p.cz, 1),
+                            binary_output_status: bits(p.cz, 2),
+                            counter: bits(p.cz, 3),
+                            frozen_counter: bits(p.cz, 4),
+                            analog: bits(p.cz, 5),
+                            analog_output_status: bits(p.cz, 6),
+                            octet_string: bits(p.cz, 7),
+                        },
+                    };
+                    let got = match dnp3_ffi::verif_convert_outstation_config(f) {
+                        Ok(n) => dbg(&n),
+                        Err(_) => "Err".to_string(),
+                    };
+                    let feature = |b: bool| if b { Feature::Enabled } else { Feature::Disabled };
+                    let native = (|| -> Option<OutstationConfig> {
+                        let mut n = OutstationConfig::new(
+                            EndpointAddress::try_new(p.oa).ok()?,
+                            EndpointAddress::try_new(p.ma).ok()?,
+                            EventBufferConfig::new(evs[0], evs[1], evs[2], evs[3], evs[4], evs[5], evs[6], evs[7]),
+                        );
+                        n.solicited_buffer_size = BufferSize::new(p.sol as usize).ok()?;
+                        n.unsolicited_buffer_size = BufferSize::new(p.uns as usize).ok()?;
+                        n.rx_buffer_size = BufferSize::new(p.rx as usize).ok()?;
+                        n.decode_level = DecodeLevel { application: AppDecodeLevel::ObjectValues, transport: TransportDecodeLevel::Header, link: LinkDecodeLevel::Payload, physical: PhysDecodeLevel::Length };
+                        n.confirm_timeout = Timeout::from_millis(p.confirm).ok()?;
+                        n.select_timeout = Timeout::from_millis(p.select).ok()?;
+                        n.features = Features { self_address: feature(bits(p.feat, 0)), broadcast: feature(bits(p.feat, 1)), unsolicited: feature(bits(p.feat, 2)), respond_to_any_master: feature(bits(p.feat, 3)) };
+                        n.max_unsolicited_retries = Some(p.retries as usize);
+                        n.unsolicited_retry_delay = Duration::from_millis(p.retry_delay);
+                        n.keep_alive_timeout = if p.keep_alive == 0 { None } else { Some(Duration::from_millis(p.keep_alive)) };
+                        n.max_read_request_headers = Some(p.read_headers);
+                        n.max_controls_per_request = Some(p.controls);
+                        n.class_zero = ClassZeroConfig::new(bits(p.cz, 0), bits(p.cz, 1), bits(p.cz, 2), bits(p.cz, 3), bits(p.cz, 4), bits(p.cz, 5), bits(p.cz, 6), bits(p.cz, 7));
+                        Some(n)
+                    })();
+                    Outcome { got, want: native.map(|n| dbg(&n)).unwrap_or_else(|| "Err".to_string()) }
+                }),
+            });
+        }
+    }
     // ---- configuration structures with fallible conversions (TryFrom) ----------------------------------
     for (h, size, blk) in [(0u32, 0u32, 0u16), (1, 2, 3), (u32::MAX, 7, 9), (5, u32::MAX, 11), (13, 17, u16::MAX), (0x01020304, 0x05060708, 0x090A)] {
         v.push(Case {
@@ -1354,7 +1487,7 @@ const DRIVEN_INDIRECTLY: [(&str, &str); 16] = [
     ("impl From<ffi::MinTlsVersion> for MinTlsVersion", "enumeration conversion, named with its full path"),
 ];
 
-const NOT_DRIVEN: [(&str, &str); 12] = [
+const NOT_DRIVEN: [(&str, &str); 11] = [
     ("impl From<TimeoutRangeError> for ffi::ParamError", "unit mapping; the source type has no public constructor"),
     ("impl From<crate::TracingInitError> for std::os::raw::c_int", "source type private to dnp3-ffi"),
     ("impl From<crate::runtime::RuntimeError> for std::os::raw::c_int", "source type private to dnp3-ffi"),
@@ -1365,7 +1498,6 @@ const NOT_DRIVEN: [(&str, &str); 12] = [
     ("impl From<&AddressFilter> for dnp3::tcp::AddressFilter", "source type private to dnp3-ffi; identity on its three variants"),
     ("impl From<ffi::LinkIdConfig> for LinkIdConfig", "target has no observable accessors outside the crate"),
     ("impl TryFrom<ffi::TlsClientConfig> for TlsClientConfig", "reads certificate and key files"),
-    ("fn convert_outstation_config(ffi::OutstationConfig)", "private function, reachable only by creating a live outstation on a socket or serial port; its parts (EventBufferConfig, Features, ClassZeroConfig, DecodeLevel) are driven through their own From impls"),
     ("fn convert_udp_config(ffi::OutstationUdpConfig)", "private function, reachable only by creating a live UDP outstation"),
 ];
 
